@@ -50,11 +50,14 @@ def unreached_breakdown(reached):
     no_class = [n for n in miss if re.search(r"Vec[234]<unsigned char>", n)]
     rest = [n for n in miss if n not in no_class]
     all_scalar = [n for n in rest if "SimpleNonArrayWrapper" in n and "FixedArray" not in n.split("WritableDirectAccess", 1)[-1]]
-    other = [n for n in rest if n not in all_scalar]
+    rest = [n for n in rest if n not in all_scalar]
+    no_i64 = [n for n in rest if re.search(r"FixedArray<long>::", n)]
+    other = [n for n in rest if n not in no_i64]
     return {"total": len(miss),
             "arrays_of_Vec_unsigned_char (no Python class exists for them)": len(no_class),
             "all_scalar_argument_instantiations (length 1: always run inline)": len(all_scalar),
-            "other": len(other), "other_examples": sorted(other)[:8]}
+            "operand_FixedArray_of_int64 (no Python class exists for it)": len(no_i64),
+            "other": len(other), "other_examples": sorted(other)[:100]}
 
 
 def single(exe, env, doc, trace_file=None):
